@@ -545,7 +545,8 @@ def run(ctx, known, built):
                                                      fc.e_ok(fc.e_font(fc.font_obs(_load(os.path.join(cd, "second.json")))))])))
                 # the plist files of the input, read by the tree-level file codecs: what norad loaded
                 try:
-                    for rel, e in ffc.checks_loaded(os.path.join(cd, "in.ufo"), first):
+                    for rel, e in ffc.checks_loaded(os.path.join(cd, "in.ufo"), first,
+                                                        fontinfo=(thorough or len(fcorr) % 3 == 0)):
                         fcorr.append((name + "/" + rel, e))
                 except Exception as e:
                     ctx.disagreements.append({"what": "cannot build the file-codec case", "input": name, "kind": kind,
